@@ -19,7 +19,7 @@ TECHNIQUE = ("hypothesis circuits x measurement lists x shot specifications exec
 RULE = (
     "Circuits 1-4 wires (int/str/mixed labels): generic RY layer + up to 6 gates of the full table (default.mixed: plus 0-2 "
     "channels); 1-3 measurements out of sample(wires | all wires | obs), counts(wires | obs, all_outcomes both), probs(wires | "
-    "Pauli word), expval / var of Pauli words, Hermitian (non +-1 eigenvalues), Projector, scaled words, sums; wire subsets in "
+    "Pauli word), expval / var of Pauli words, Hermitian (non +-1 eigenvalues), Projector, scaled words, Sum and LinearCombination; wire subsets in "
     "random (non-ascending) order; shots: ints 1..20000 and shot vectors with repeated entries / (shots, copies) pairs; device "
     "wires none/same/permuted/idle extras; seed = integer (numpy Generator) or jax.random.PRNGKey; via qp.execute or "
     "qp.set_shots(QNode). Deterministic oracle: result nesting = bins x measurements of the expanded shot list, sample shapes "
@@ -63,7 +63,7 @@ def _meas(draw, wires):
     n = len(wires)
     sub = st.sampled_from([1] + [k for k in range(2, n + 1)] * 2).flatmap(lambda k: gen.subset(wires, k))
     kind = draw(st.sampled_from(["sample_w", "sample_w", "sample_all", "sample_obs", "counts_w", "counts_w", "counts_all", "counts_obs",
-                                 "probs_w", "probs_obs", "expval", "expval", "var"]))
+                                 "probs_w", "probs_obs", "expval", "expval", "var", "var"]))
     if kind == "sample_w":
         return {"mp": "sample", "w": draw(sub)}
     if kind == "sample_all":
@@ -81,7 +81,9 @@ def _meas(draw, wires):
     if kind == "probs_obs":
         return {"mp": "probs", "obs": draw(gen.pauli_word_obs(wires))}
     if kind == "expval":
-        return {"mp": "expval", "obs": draw(st.one_of(gen.observable(wires), _sample_obs(wires)))}
+        lin = st.lists(st.tuples(gen.floats01, gen.pauli_word_obs(wires)), min_size=1, max_size=4).map(
+            lambda ts: {"op": "lincomb", "coeffs": [c for c, _ in ts], "operands": [o for _, o in ts]})
+        return {"mp": "expval", "obs": draw(st.one_of(gen.observable(wires), _sample_obs(wires), lin))}
     return {"mp": "var", "obs": draw(st.one_of(gen.observable(wires), _sample_obs(wires)))}
 
 
@@ -133,7 +135,19 @@ def enumerate_cases(tier):
             for meas in ([{"mp": "sample", "w": [2, 0]}, {"mp": "counts", "w": [1, 2, 0], "all_outcomes": True}],
                          [{"mp": "probs", "w": [2, 1]}, {"mp": "expval", "obs": {"op": "PauliZ", "w": [2]}}, {"mp": "sample", "w": None}],
                          [{"mp": "counts", "obs": {"op": "Hermitian", "p": [{"H": [0.3, -0.7, 0.2, 0.9, 0.1], "n": 2}], "w": [2, 0]}, "all_outcomes": False},
-                          {"mp": "var", "obs": {"op": "PauliY", "w": [1]}}]):
+                          {"mp": "var", "obs": {"op": "PauliZ", "w": [1]}}],
+                         [{"mp": "var", "obs": {"op": "Hermitian", "p": [{"H": [0.9, 0.1, -0.4, 0.3, 0.6], "n": 2}], "w": [0, 1]}},
+                          {"mp": "expval", "obs": {"op": "Hermitian", "p": [{"H": [0.9, 0.1, -0.4, 0.3, 0.6], "n": 2}], "w": [1, 2]}},
+                          {"mp": "sample", "obs": {"op": "prod", "operands": [{"op": "PauliZ", "w": [0]}, {"op": "PauliX", "w": [1]}]}}],
+                         [{"mp": "expval", "obs": {"op": "sum", "operands": [{"op": "s_prod", "c": 0.5, "base": {"op": "PauliZ", "w": [0]}},
+                                                                              {"op": "s_prod", "c": 0.3, "base": {"op": "prod", "operands": [{"op": "PauliZ", "w": [1]}, {"op": "PauliZ", "w": [2]}]}},
+                                                                              {"op": "s_prod", "c": -0.7, "base": {"op": "PauliX", "w": [0]}}]}},
+                          {"mp": "var", "obs": {"op": "s_prod", "c": 2.0, "base": {"op": "PauliZ", "w": [1]}}},
+                          {"mp": "counts", "obs": {"op": "Projector", "p": [[1, 0]], "w": [2, 1]}, "all_outcomes": True}],
+                         [{"mp": "expval", "obs": {"op": "lincomb", "coeffs": [0.8, -0.6, 0.4], "operands": [
+                             {"op": "PauliZ", "w": [1]}, {"op": "prod", "operands": [{"op": "PauliZ", "w": [0]}, {"op": "PauliZ", "w": [2]}]}, {"op": "PauliX", "w": [1]}]}},
+                          {"mp": "probs", "obs": {"op": "prod", "operands": [{"op": "PauliZ", "w": [1]}, {"op": "PauliX", "w": [2]}]}},
+                          {"mp": "sample", "obs": {"op": "s_prod", "c": -0.5, "base": {"op": "PauliZ", "w": [2]}}}]):
                 for shots in (20000, [10000, [5000, 2]]):
                     yield {"dev": dev, "ops": ops, "meas": meas, "wires": [0, 1, 2], "dev_wires": [2, 0, 1] if rng == "jax" else None,
                            "shots": shots, "rng": rng, "seed": 1234, "via": "execute"}
@@ -313,11 +327,23 @@ def evaluate(m, mp, res, nshots, model, feats):
         raise Viol("scalar-shape", f"{what}: shape {a.shape} expected ()", sig=kind + ":shape:" + dev, features=feats)
     v = float(np.real(a))
     lo, hi = model["vals"].min(), model["vals"].max()
+    two = (not model.get("additive")) and len(model["vals"]) == 2
     if kind == "expval":
         if not model.get("additive") and not (lo - 1e-9 <= v <= hi + 1e-9):
             raise Viol("invalid-outcome", f"{what}: sample mean {v} outside the spectrum [{lo}, {hi}]", sig="mean-range:" + dev, features=feats)
+        if two:
+            # two eigenvalues lo < hi: mean = hi*f + lo*(1-f) with f = k/n the frequency of hi
+            k = (v - lo) / (hi - lo) * nshots
+            if abs(k - round(k)) > 1e-6 * max(1.0, nshots):
+                raise Viol("mean-grid", f"{what}: sample mean {v!r} is not a mixture k/n of the eigenvalues {lo}, {hi}", sig="mean-grid:" + dev, features=feats)
+            return "hist", np.array([nshots - int(round(k)), int(round(k))], dtype=np.int64)
         return "mean", v
     lam = max(abs(lo), abs(hi))
+    if two:
+        w = v / (hi - lo) ** 2  # = f (1 - f)
+        if w < -1e-9 or w > 0.25 + 1e-9:
+            raise Viol("invalid-outcome", f"{what}: sample variance {v} outside [0, {(hi - lo) ** 2 / 4}]", sig="var-range:" + dev, features=feats)
+        return "var2", v
     if v < -1e-9 or v > lam * lam + 1e-9:
         raise Viol("invalid-outcome", f"{what}: sample variance {v} outside [0, {lam * lam}]", sig="var-range:" + dev, features=feats)
     return "var", v
@@ -331,6 +357,17 @@ def stat_p(m, model, stats):
         return stt.histogram_p(pooled, model["probs"])
     ps = []
     for _, v, n in stats:
+        if kind == "var2":
+            # two-valued spectrum: var_est = f(1-f)(hi-lo)^2 determines the frequency f up to f <-> 1-f; the exact binomial
+            # p-value of the better of the two candidates is a valid (conservative) p-value
+            lo, hi = model["vals"].min(), model["vals"].max()
+            w = min(0.25, max(0.0, v / (hi - lo) ** 2))
+            r = np.sqrt(max(0.0, 1 - 4 * w))
+            cands = [int(round(n * (1 + r) / 2)), int(round(n * (1 - r) / 2))]
+            p_hi = float(model["probs"][-1])
+            best = max(stt.histogram_p([n - k, k], [1 - p_hi, p_hi]) for k in cands)
+            ps.append((best[0], f"sample variance {v:.5f} vs exact {model['var']:.5f}: implied count of the upper eigenvalue {cands} of {n}, exact prob {p_hi:.5f}; {best[1]}"))
+            continue
         if kind == "mean":
             p = stt.mean_p(v - model["mean"], n, model["B"])
             ps.append((p, f"sample mean {v:.5f} vs exact {model['mean']:.5f} (n={n}, half-range {model['B']:.3f}, Hoeffding p={p:.2e})"))
